@@ -697,6 +697,32 @@ func (w *world) exercise(h *keyset.Handle, sh *shape, written []string, ctx stri
 			}
 			r.Probe("round-trip-on-read-back-handle")
 		})
+		// "using a primitive from an accepted handle never panics" also holds for inputs nobody produced: the accepting
+		// side is poked with the empty input, with every leading part of every key's output prefix (an input shorter
+		// than a prefix), and with a bare prefix plus one byte. What it answers is not judged.
+		if class != classes.KeyDerivation {
+			w.guard("use:"+class+":short-input:"+pkt, func() {
+				pokes := [][]byte{nil, {}, {0}, {1}}
+				for i := range sh.keys {
+					id := sh.ids[i]
+					for _, lead := range []byte{0x00, 0x01} {
+						pfx := []byte{lead, byte(id >> 24), byte(id >> 16), byte(id >> 8), byte(id)}
+						for k := 1; k <= 5; k++ {
+							pokes = append(pokes, append([]byte{}, pfx[:k]...))
+							// trailing zero bytes of the prefix left off: what a zero-extending lookup would match
+							if pfx[k-1] != 0 && allZero(pfx[k:]) {
+								r.Probe("short-input-matching-a-prefix-up-to-zero-bytes")
+							}
+						}
+						pokes = append(pokes, append(append([]byte{}, pfx...), 0x5a))
+					}
+				}
+				for _, in := range pokes {
+					_ = acc.Accept(in, msg, aux)
+				}
+				r.Probe("acceptor-poked-with-short-inputs")
+			})
+		}
 	}
 	return res
 }
@@ -739,4 +765,13 @@ func (w *world) derived(prod *classes.Producer, salt []byte, ctx, pkt string, de
 	}
 	w.r.Probe("derived-keyset-exercised")
 	w.exercise(h1, s1, nil, ctx+" (derived keyset)", depth+1)
+}
+
+func allZero(b []byte) bool {
+	for _, x := range b {
+		if x != 0 {
+			return false
+		}
+	}
+	return true
 }
